@@ -69,19 +69,20 @@ def digitsU (s : Str) : Option (List Nat) :=
     some (parts.flatten.filterMap intDigit?)
   else none
 
+/-- optional sign of an `int()` literal: (negative?, rest) -/
+def splitSign : Str → Bool × Str
+  | 43 :: r => (false, r)
+  | 45 :: r => (true, r)
+  | t => (false, t)
+
 /-- `int(s)` for a `str` argument, base 10. `none` = `ValueError`. -/
 def pyInt (s : Str) : Option Int :=
-  let t := stripBy isIntSpace s
-  let (neg, body) : Bool × Str :=
-    match t with
-    | 43 :: r => (false, r)
-    | 45 :: r => (true, r)
-    | _ => (false, t)
-  match digitsU body with
+  let sb := splitSign (stripBy isIntSpace s)
+  match digitsU sb.2 with
   | none => none
   | some ds =>
-    if ds.length > intMaxStrDigits then none
-    else some (if neg then -(digitsVal ds : Int) else (digitsVal ds : Int))
+    if intMaxStrDigits != 0 && ds.length > intMaxStrDigits then none   -- limit 0 = unlimited
+    else some (if sb.1 then -(digitsVal ds : Int) else (digitsVal ds : Int))
 
 /-- `str(n)` for `n ≥ 0` (fuel-structural so that it evaluates in the kernel). -/
 def decAux : Nat → Nat → Str → Str
